@@ -40,24 +40,50 @@ func CheckConcatenate(c *core.Ctx, x, y []int, aliased bool) {
 			c16fail(c, "Concatenate/operand-changed", cs, "operands now %v and %v", a.AsArray(), b.AsArray())
 			return
 		}
-		// independence both ways
-		r.AppendValue(99)
+		// independence both ways; one change at a time, the ones that work in place first
+		// (a change of size makes a list re-allocate, which would hide shared storage)
+		xs, ys := fmt.Sprint(x), fmt.Sprint(y)
+		var onResult []func() string
 		if len(want) > 0 {
-			r.SetValue(1, 98)
-			r.RemoveValue(-1)
+			onResult = append(onResult,
+				func() string { r.SetValue(1, 98); return "SetValue(1)" },
+				func() string { r.SetValue(-1, 94); return "SetValue(-1)" },
+				func() string { r.ReverseValues(); return "ReverseValues" },
+				func() string { r.SortValues(); return "SortValues" },
+				func() string { r.SetValues(1, L.MakeFromArray([]int{93})); return "SetValues(1)" })
 		}
-		if fmt.Sprint(a.AsArray()) != fmt.Sprint(x) || fmt.Sprint(b.AsArray()) != fmt.Sprint(y) {
-			c16fail(c, "Concatenate/shared-state", cs, "changing the result changed an operand: %v %v", a.AsArray(), b.AsArray())
-			return
+		onResult = append(onResult,
+			func() string { r.AppendValue(99); return "AppendValue" },
+			func() string { r.RemoveValue(-1); return "RemoveValue(-1)" },
+			func() string { r.InsertValue(0, 92); return "InsertValue(0)" })
+		for _, f := range onResult {
+			what := f()
+			if fmt.Sprint(a.AsArray()) != xs || fmt.Sprint(b.AsArray()) != ys {
+				c16fail(c, "Concatenate/shared-state", cs, "%s on the result changed an operand: %v %v", what, a.AsArray(), b.AsArray())
+				return
+			}
 		}
 		after := fmt.Sprint(r.AsArray())
-		a.AppendValue(97)
-		b.InsertValue(0, 96)
-		if len(y) > 0 {
-			b.SetValue(-1, 95)
+		var onOperands []func() string
+		if len(x) > 0 {
+			onOperands = append(onOperands,
+				func() string { a.SetValue(1, 91); return "a.SetValue(1)" },
+				func() string { a.ReverseValues(); return "a.ReverseValues" })
 		}
-		if fmt.Sprint(r.AsArray()) != after {
-			c16fail(c, "Concatenate/shared-state", cs, "changing an operand changed the result: %v", r.AsArray())
+		if len(y) > 0 {
+			onOperands = append(onOperands,
+				func() string { b.SetValue(-1, 95); return "b.SetValue(-1)" },
+				func() string { b.ReverseValues(); return "b.ReverseValues" })
+		}
+		onOperands = append(onOperands,
+			func() string { a.AppendValue(97); return "a.AppendValue" },
+			func() string { b.InsertValue(0, 96); return "b.InsertValue(0)" })
+		for _, f := range onOperands {
+			what := f()
+			if fmt.Sprint(r.AsArray()) != after {
+				c16fail(c, "Concatenate/shared-state", cs, "%s changed the result: %v", what, r.AsArray())
+				return
+			}
 		}
 	})
 	if pan || noret {
